@@ -164,7 +164,8 @@ def directed_chain(rng, kind, svcs, rules):
         return [(s, r0, [kind] if i else []) for i, s in enumerate(steps)]
     if kind == "svc-recase-xreply":
         # a service is re-spelled while earlier clients still wait on the old spelling, and a rule asks whether it said OK
-        rr = [{"name": "aa0", "xreply_ok": a, "class": "vouched"}] + [r for r in copy.deepcopy(r0) if r["name"].lower() != "aa0"]
+        # (the rule sorts before every other one, so that it decides for every client the service vouches for)
+        rr = [{"name": "00first", "xreply_ok": a, "class": "vouched"}] + [r for r in copy.deepcopy(r0) if r["name"].lower() != "00first"]
         pl = rng.choice(["login", "combined", "login-ipr"]) if set(["login", "combined", "login-ipr"]) <= set(proto.PROTOS) else pa
         a2 = recase(rng, a)
         a3 = recase(rng, a2)
